@@ -54,6 +54,7 @@ type Verifier struct {
 	relied       map[string][]string
 	feasQueries  int
 	funcIDs      map[string]int
+	conforms     map[string][]conformTo // function value -> function-type contracts it is used under
 }
 
 func loadVerifier(repo, contractPath string) (*Verifier, error) {
@@ -92,6 +93,7 @@ func loadVerifier(repo, contractPath string) (*Verifier, error) {
 	if err := v.loadPrelude(); err != nil {
 		return nil, err
 	}
+	v.buildConformance()
 	return v, nil
 }
 
@@ -356,6 +358,7 @@ func (v *Verifier) verifyFunc(name string) *FuncResult {
 		x.trackAxiom(st, con, x.selfTerm, fn, fr.bind)
 	}
 	st.entry = st.snapshot()
+	x.conformEntry(st, fn, con)
 	env := x.envFor(st)
 	// global invariants (constants of the package established by init)
 	if !strings.HasPrefix(name, "init") {
@@ -477,6 +480,7 @@ func (x *Exec) finish(st *State, res Val, pos token.Pos) {
 		}
 		x.emit(st, "post", "post."+clauseName(en, k), g, x.tagsOf(en.Tags), en.Src, pos)
 	}
+	x.conformFinish(st, fn, res, pos)
 	if con.HasMod {
 		x.frameCheck(st, st.entry, x.entryTargets, x.entryWhole, "frame", nil)
 	}
